@@ -141,6 +141,13 @@ def scenarios(thorough):
             if cmd == "toma":       # with --pad the window is applied by a different code path
                 add("bad-window", cmd, args=CMDS[cmd] + w + ["--pad"], tag=tag + "+pad")
                 add("bad-window", cmd, args=CMDS[cmd] + w + ["--pad", "-t", "3", "-w", "10"], tag=tag + "+pad+wrap")
+    # the window under its former spelling (hidden, still accepted): --trimstart / --trimend, with and without --trim
+    # (0-based, half open: --trimstart s is --start s+1, --trimend e is --end e)
+    for w, tag in ((["--trimstart", str(L)], "trimstart=len"), (["--trimstart", str(L + 1)], "trimstart>len"), (["--trimend", "0"], "trimend0"),
+                   (["--trimend", str(L + 1)], "trimend>len"), (["--trimstart", "9", "--trimend", "8"], "trimstart>trimend")):
+        add("bad-window", "toma", args=CMDS["toma"] + w, tag=tag)
+        add("bad-window", "toma", args=CMDS["toma"] + ["--trim"] + w, tag=tag + "+trim")
+        add("bad-window", "toma", args=CMDS["toma"] + w + ["--pad"], tag=tag + "+pad")
     add("annotation-suffix", "variants", args=["variants", "--msa", "@m.fa", "-a", "@a.txt"])
     add("annotation-suffix", "samvar", args=["sam", "variants", "-s", "@in.sam", "-r", "@ref.fa", "-a", "@a.txt"])
     add("no-size-or-dist", "toprank", args=[a for a in tr if a not in ("--size-total", "4")])
